@@ -23,6 +23,7 @@ type mNode struct {
 	Keys  []string
 	Elems []*mNode
 	Gone  []string // object: keys removed from it so far (operands for "getgone")
+	Holes bool     // a child other than the last one was removed by index or key (the real node now has a soft-deleted slot)
 }
 
 func modelFromRef(doc []byte, n *ref.Node) *mNode {
@@ -166,6 +167,25 @@ func drawC15(t *rapid.T) Case {
 		b.WriteByte('}')
 		c.Doc = b.Bytes()
 	}
+	// one case in five: a top-level array of 3..9 small elements (index-based mutation sequences on one node)
+	arrayRoot := !wideRoot && rapid.IntRange(0, 3).Draw(t, "arrayRoot") == 0
+	if arrayRoot {
+		var b bytes.Buffer
+		b.WriteByte('[')
+		nk := rapid.IntRange(3, 9).Draw(t, "na")
+		for i := 0; i < nk; i++ {
+			if i > 0 {
+				b.WriteByte(',')
+			}
+			if rapid.IntRange(0, 3).Draw(t, "acont") == 0 {
+				b.WriteString([]string{`[1,2,3,4]`, `{"a":1,"b":2}`, `[[],{}]`, `"s"`}[rapid.IntRange(0, 3).Draw(t, "av")])
+			} else {
+				fmt.Fprintf(&b, "%d", 10+i)
+			}
+		}
+		b.WriteByte(']')
+		c.Doc = b.Bytes()
+	}
 	c.Create = rapid.IntRange(0, len(c15CreateNames)-1).Draw(t, "create")
 	n := rapid.IntRange(1, 14).Draw(t, "nops")
 	if thorough() {
@@ -177,8 +197,13 @@ func drawC15(t *rapid.T) Case {
 			op.Op = "copyload" // kept rare: after it, failures are attributed to the listed copy finding
 		}
 		op.Cur = rapid.IntRange(0, 500).Draw(t, "cur")
-		if wideRoot && rapid.IntRange(0, 3).Draw(t, "atroot") != 0 {
+		if (wideRoot || arrayRoot) && rapid.IntRange(0, 3).Draw(t, "atroot") != 0 {
 			op.Cur = 0
+		} else if i > 0 && rapid.Bool().Draw(t, "sticky") {
+			op.Cur = c.Ops[i-1].Cur // stay on the node the previous operation used
+		}
+		if arrayRoot && rapid.Bool().Draw(t, "arrayop") {
+			op.Op = []string{"unsetbyindex", "move", "move", "add", "pop", "index", "values", "setbyindex", "marshal", "foreach"}[rapid.IntRange(0, 9).Draw(t, "aop")]
 		}
 		op.A = rapid.IntRange(0, 45).Draw(t, "a")
 		op.B = rapid.IntRange(0, 45).Draw(t, "b")
@@ -243,7 +268,7 @@ func c15Same(rn *ast.Node, mn *mNode) string {
 }
 
 type c15Flags struct {
-	mutated, readAfterMutation, lazyStart, dupKey, emptyKey, wide, copyLoaded, goneRead bool
+	mutated, readAfterMutation, lazyStart, dupKey, emptyKey, wide, copyLoaded, goneRead, moveWithHoles, opWithHoles bool
 }
 
 func c15KindToType(k int) int {
@@ -317,6 +342,7 @@ func (c *C15Case) Run() (res stat.Result) {
 			return fail("%v", cerr)
 		}
 		n := len(mn.Elems)
+		fl.opWithHoles = fl.opWithHoles || mn.Holes
 		switch op.Op {
 		case "get":
 			if mn.Kind != ref.TObjOpen || n == 0 {
@@ -595,6 +621,7 @@ func (c *C15Case) Run() (res stat.Result) {
 				return fail("Unset(%q) = %v, %v; model says existed=%v", k, existed, err, wi >= 0)
 			}
 			if wi >= 0 {
+				mn.Holes = mn.Holes || wi < n-1
 				mn.removeAt(wi)
 				fl.mutated = true
 			}
@@ -613,6 +640,7 @@ func (c *C15Case) Run() (res stat.Result) {
 			if err != nil || !existed {
 				return fail("UnsetByIndex(%d) = %v, %v", i, existed, err)
 			}
+			mn.Holes = mn.Holes || i < n-1
 			mn.removeAt(i)
 			fl.mutated = true
 		case "pop":
@@ -644,6 +672,7 @@ func (c *C15Case) Run() (res stat.Result) {
 				continue
 			}
 			dst, src := op.A%n, op.B%n
+			fl.moveWithHoles = fl.moveWithHoles || mn.Holes && dst != src
 			if err := rn.Move(dst, src); err != nil {
 				return fail("Move(%d,%d) error %v", dst, src, err)
 			}
@@ -721,6 +750,8 @@ func (c *C15Case) finish(res *stat.Result, fl *c15Flags) {
 	add(fl.emptyKey, "empty-key")
 	add(fl.wide, "wide>16")
 	add(fl.copyLoaded, "copy-loaded")
+	add(fl.moveWithHoles, "move-in-array-with-holes")
+	add(fl.opWithHoles, "op-on-container-with-holes")
 	add(fl.goneRead, "read-of-removed-key")
 	add(fl.goneRead && fl.wide, "read-of-removed-key-wide")
 	for _, op := range c.Ops {
